@@ -1,12 +1,3 @@
-gen/Compute.vo gen/Compute.glob gen/Compute.v.beautified gen/Compute.required_vo: gen/Compute.v lib/Lib.vo
-gen/Compute.vio: gen/Compute.v lib/Lib.vio
-gen/Compute.vos gen/Compute.vok gen/Compute.required_vos: gen/Compute.v lib/Lib.vos
-gen/Tables.vo gen/Tables.glob gen/Tables.v.beautified gen/Tables.required_vo: gen/Tables.v lib/Lib.vo gen/Compute.vo
-gen/Tables.vio: gen/Tables.v lib/Lib.vio gen/Compute.vio
-gen/Tables.vos gen/Tables.vok gen/Tables.required_vos: gen/Tables.v lib/Lib.vos gen/Compute.vos
-gen/Unfold.vo gen/Unfold.glob gen/Unfold.v.beautified gen/Unfold.required_vo: gen/Unfold.v lib/Lib.vo gen/Compute.vo gen/Tables.vo
-gen/Unfold.vio: gen/Unfold.v lib/Lib.vio gen/Compute.vio gen/Tables.vio
-gen/Unfold.vos gen/Unfold.vok gen/Unfold.required_vos: gen/Unfold.v lib/Lib.vos gen/Compute.vos gen/Tables.vos
 lib/BoolLaws.vo lib/BoolLaws.glob lib/BoolLaws.v.beautified lib/BoolLaws.required_vo: lib/BoolLaws.v lib/Lib.vo lib/RLib.vo
 lib/BoolLaws.vio: lib/BoolLaws.v lib/Lib.vio lib/RLib.vio
 lib/BoolLaws.vos lib/BoolLaws.vok lib/BoolLaws.required_vos: lib/BoolLaws.v lib/Lib.vos lib/RLib.vos
@@ -25,6 +16,15 @@ lib/Spec.vos lib/Spec.vok lib/Spec.required_vos: lib/Spec.v lib/Lib.vos lib/RLib
 lib/Trig.vo lib/Trig.glob lib/Trig.v.beautified lib/Trig.required_vo: lib/Trig.v lib/Lib.vo lib/RLib.vo
 lib/Trig.vio: lib/Trig.v lib/Lib.vio lib/RLib.vio
 lib/Trig.vos lib/Trig.vok lib/Trig.required_vos: lib/Trig.v lib/Lib.vos lib/RLib.vos
+gen/Compute.vo gen/Compute.glob gen/Compute.v.beautified gen/Compute.required_vo: gen/Compute.v lib/Lib.vo
+gen/Compute.vio: gen/Compute.v lib/Lib.vio
+gen/Compute.vos gen/Compute.vok gen/Compute.required_vos: gen/Compute.v lib/Lib.vos
+gen/Tables.vo gen/Tables.glob gen/Tables.v.beautified gen/Tables.required_vo: gen/Tables.v lib/Lib.vo gen/Compute.vo
+gen/Tables.vio: gen/Tables.v lib/Lib.vio gen/Compute.vio
+gen/Tables.vos gen/Tables.vok gen/Tables.required_vos: gen/Tables.v lib/Lib.vos gen/Compute.vos
+gen/Unfold.vo gen/Unfold.glob gen/Unfold.v.beautified gen/Unfold.required_vo: gen/Unfold.v lib/Lib.vo gen/Compute.vo gen/Tables.vo
+gen/Unfold.vio: gen/Unfold.v lib/Lib.vio gen/Compute.vio gen/Tables.vio
+gen/Unfold.vos gen/Unfold.vok gen/Unfold.required_vos: gen/Unfold.v lib/Lib.vos gen/Compute.vos gen/Tables.vos
 proofs/C09_boost.vo proofs/C09_boost.glob proofs/C09_boost.v.beautified proofs/C09_boost.required_vo: proofs/C09_boost.v lib/Lib.vo lib/RLib.vo lib/Trig.vo lib/Conv.vo lib/Spec.vo gen/Compute.vo gen/Tables.vo gen/Unfold.vo proofs/Spec_planar.vo proofs/Spec_spatial1.vo proofs/Spec_spatial2.vo proofs/Spec_lorentz.vo
 proofs/C09_boost.vio: proofs/C09_boost.v lib/Lib.vio lib/RLib.vio lib/Trig.vio lib/Conv.vio lib/Spec.vio gen/Compute.vio gen/Tables.vio gen/Unfold.vio proofs/Spec_planar.vio proofs/Spec_spatial1.vio proofs/Spec_spatial2.vio proofs/Spec_lorentz.vio
 proofs/C09_boost.vos proofs/C09_boost.vok proofs/C09_boost.required_vos: proofs/C09_boost.v lib/Lib.vos lib/RLib.vos lib/Trig.vos lib/Conv.vos lib/Spec.vos gen/Compute.vos gen/Tables.vos gen/Unfold.vos proofs/Spec_planar.vos proofs/Spec_spatial1.vos proofs/Spec_spatial2.vos proofs/Spec_lorentz.vos
